@@ -586,6 +586,24 @@ Q(id='C06.read_msf', props=['C06', 'C04', 'C05'], cls='B', harness='c06_readers.
   trusted=[TRUST_MSG, 'strstr/strnlen loop stubs', 'realloc byte-copy stub', 'isalpha/ispunct/isspace: CBMC C-locale models', 'R3 capacity shrink (records 512 -> 4, residues 512 -> 2)',
            'R3 identity substitution in read_msf: the skip strnlen(stored name) is asserted equal to the name length of the shape and replaced by that constant (contracts/msa_io.msf.loops)'],
   assumptions=[A_NOFAIL, A_WRAP, 'bounded: 2 rows, 2-3 columns in blocks of 2-3, row bytes from {-,A,c,N}; one-letter names; header lines shortened to the keywords the reader looks for'])
+def _sniff_shapes(tier):
+    return [dict(name='fasta_k9', defs=dict(KV_TEXT=0, KV_K=9)), dict(name='clustal', defs=dict(KV_TEXT=1)), dict(name='msf', defs=dict(KV_TEXT=2))] + \
+           ([] if tier == 'quick' else [dict(name='fasta_k27', defs=dict(KV_TEXT=0, KV_K=27))])
+Q(id='C04.detect_alignment_format', props=['C04', 'C05', 'C06'], cls='B', harness='c04_sniff.c', entry='h_c04_sniff', shapes=_sniff_shapes,
+  mode='wrap', unwind=52, timeout=900, funcs=['detect_alignment_format'],
+  srcs=['lib/src/msa_alloc.c', 'lib/src/msa_op.c', 'lib/src/msa_misc.c', 'lib/src/alphabet.c', 'lib/src/tlmisc.c'], native_srcs=READER_NATIVE,
+  trusted=[TRUST_MSG, 'strstr: textbook loop stub (contracts/stubs_str.h)'],
+  assumptions=[A_WRAP, 'bounded: two FASTA records whose headers carry 9 (thorough 27) arbitrary bytes after the > ; the header lines of kalign\'s own Clustal / MSF writers followed by two block lines with symbolic two-letter names and residues'])
+def _read_file_shapes(tier):
+    sh = [(3, 3), (5, 1)] if tier == 'quick' else [(3, 3), (5, 1), (7, 1), (2, 5)]
+    return [dict(name='nl%d_lw%d' % (nl, lw), defs=dict(KV_NL=nl, KV_LW=lw), unwind=max(nl, lw) + 4) for nl, lw in sh]
+Q(id='C05.read_file_stdin', props=['C05', 'C04'], cls='B', harness='c05_read_file.c', entry='h_c05_read_file', shapes=_read_file_shapes,
+  mode='wrap', timeout=900, loops_files=['msa_io.inbuf.shrink.loops'], shrink=True, leak_check=True, defs=['-DKV_INCAP=2'], object_bits=10,
+  funcs=['read_file_stdin', 'alloc_in_buffer', 'resize_in_buffer', 'free_in_buffer'],
+  srcs=['lib/src/msa_alloc.c', 'lib/src/msa_op.c', 'lib/src/msa_misc.c', 'lib/src/alphabet.c', 'lib/src/tlmisc.c'], native_srcs=READER_NATIVE,
+  trusted=[TRUST_MSG, 'fopen / getline / fclose: harness stubs delivering the lines of an in-memory text (each line ends in a newline)', 'realloc byte-copy stub', 'iscntrl: CBMC C-locale model',
+           'R3 capacity shrink: line table 1024 -> 2 entries (grows 2 -> 3 -> 4 -> 6)'],
+  assumptions=[A_NOFAIL, A_WRAP, 'bounded: 2-7 lines of 1-5 bytes, every byte symbolic over the full range; every line ends in a newline (a last line without one is not exercised)'])
 # =========================================================================== C12 upgma
 def _upgma_shapes(tier):
     s = [(3, 2), (4, 2), (4, 3)] if tier == 'quick' else [(3, 2), (4, 2), (4, 3), (5, 2), (5, 3), (5, 4)]
